@@ -18,17 +18,15 @@ Import ListNotations.
 
 (* ================================================================== 1. reading *)
 
-(* translator obligations: the productions the model gives an action to are exactly the geometry productions of
-   the table generated from CellParser (any change of the grammar in the source breaks these equations) *)
-Theorem C02_grammar_skeleton : geom_table cell_productions = map fst geom_rules.
+(* translator obligations: the productions the model gives an action to are exactly (as sets: the order of SLY's
+   table follows the order of the methods in the source) the geometry productions and the padding productions of
+   the table generated from CellParser; adding, removing or changing one in the source breaks these equations *)
+Theorem C02_grammar_skeleton : same_prods (geom_table cell_productions) (map fst geom_rules) = true.
 Proof. exact grammar_skeleton. Qed.
 Print Assumptions C02_grammar_skeleton.
 
-Theorem C02_padding_skeleton :
-  filter (fun p => String.eqb (fst p) "padding") cell_productions =
-  [("padding", ["padding"; "&"]); ("padding", ["padding"; "COMMENT"]); ("padding", ["padding"; "DOLLAR_COMMENT"]);
-   ("padding", ["padding"; "SPACE"]); ("padding", ["COMMENT"]); ("padding", ["DOLLAR_COMMENT"]); ("padding", ["SPACE"])]%string.
-Proof. exact padding_table. Qed.
+Theorem C02_padding_skeleton : same_prods (padding_table cell_productions) padding_prods = true.
+Proof. exact padding_skeleton. Qed.
 Print Assumptions C02_padding_skeleton.
 
 (* grammar soundness: for EVERY parse tree of geometry_expr over the generated productions (so whichever
@@ -135,6 +133,17 @@ Theorem C02_aug_ops_not_and :
     ~ beq (sem_hs (fst (hs_iop OInter a b))) (BAnd (sem_hs a) (sem_hs b)).
 Proof. exact aug_differs. Qed.
 Print Assumptions C02_aug_ops_not_and.
+
+(* ... but whatever the shape of the left operand, a &= b only removes points of a and keeps those of a & b,
+   and a |= b only adds points of b  (bimp x y: y holds wherever x holds).  This is what the oracle demands of
+   &= and |= on the real objects. *)
+Theorem C02_aug_ops_bounds : forall a b,
+  (bimp (BAnd (sem_hs a) (sem_hs b)) (sem_hs (fst (hs_iop OInter a b))) /\
+   bimp (sem_hs (fst (hs_iop OInter a b))) (sem_hs a)) /\
+  (bimp (sem_hs a) (sem_hs (fst (hs_iop OUnion a b))) /\
+   bimp (sem_hs (fst (hs_iop OUnion a b))) (BOr (sem_hs a) (sem_hs b))).
+Proof. exact aug_bounds. Qed.
+Print Assumptions C02_aug_ops_bounds.
 
 Example C02_aug_ops_nonvacuous :
   sem_hs (fst (hs_iop OInter (hs_or (surf_pos 1) (surf_pos 2)) (surf_pos 3)))
